@@ -65,7 +65,8 @@ def run_harness(pid, tier, seed, extra=None, timeout=3600, monitor=False):
     inp = json.dumps(extra) if extra is not None else ""
     env = dict(os.environ)
     env["PYVC_MONITOR_HARNESS"] = "1" if monitor else "0"
-    env["PYTHONPATH"] = ROOT + os.pathsep + env.get("PYTHONPATH", "")
+    # (a tree other than /repo - PYVC_REPO, used for seeded changes in scratch worktrees - is put in front of the editable install)
+    env["PYTHONPATH"] = os.pathsep.join([ROOT] + ([REPO] if REPO != "/repo" else []) + [env.get("PYTHONPATH", "")])
     env["PYTHONHASHSEED"] = "0"
     try:
         p = subprocess.run(cmd, input=inp, capture_output=True, text=True, timeout=timeout, env=env, cwd=ROOT)
@@ -216,7 +217,7 @@ def main(argv):
     if tier == "thorough" and targets:
         outp = os.path.join(ROOT, "tmp", f"monitor-{pid}.json")
         os.makedirs(os.path.dirname(outp), exist_ok=True)
-        env = dict(os.environ, PYTHONPATH=ROOT, PYVC_MONITOR_OUT=outp)
+        env = dict(os.environ, PYTHONPATH=os.pathsep.join([ROOT] + ([REPO] if REPO != "/repo" else [])), PYVC_MONITOR_OUT=outp)
         try:
             subprocess.run([VENV_PY, "-m", "pytest", "-q", "-p", "no:cacheprovider", "-p", "harness.monitor_plugin", "--timeout=900"],
                            cwd=REPO, env=env, capture_output=True, text=True, timeout=1800)
